@@ -275,10 +275,42 @@ def gen_v2_ast(rng, depth, in_loop=False, dup=False, nojump=False):
     return out
 
 
+# Colang 1.0 statement kinds (phase 5): EVERY statement form `colang_parser.parse` dispatches on (main tokens user / bot /
+# event / do / goto, go to / meta (+ the `priority` shorthand) / set, check / run, execute, exec / label, checkpoint (+ `set …
+# label to`) / if, else if, else / while / any / infer, new, create / pass, continue / stop, abort / break / return, done /
+# when, else when) in EVERY block position (flow body, then / else-if / else body, loop body, when / else-when branch,
+# first / middle / last / only statement of the block).  `meta` is special: `_parse_meta` hoists it to position 0 of the
+# block it appears in, `_extract_elements` counts it when it computes the relative offsets, and `_load_flow_config` removes
+# (only) the leading one of a flow afterwards — the elements the RUNTIME holds are not the elements the parser returned.
+V1_META = ['meta {"note": "n"}', 'meta {"is_sample": false}', "priority 2", "priority 0.5", 'meta\n  note: "x"']
+V1_RARE = [
+    "stop", "abort", "pass", "done", "return $x, 1", "do g", "do g($x)", "do $r = g", "event Foo", "event Foo with $x",
+    "infer user said x", "new event X", "create event X", "infer\n  user said x", "run act", "exec act", "run act\n  a: 1",
+    "$x = execute act(a=1)", "check $x", "set $x = 1", "$x += 1", "$x -= 1", 'user "hello there"', "user something",
+    "user said a with $x", "user [said a, said b]", "user ...", "user said a or user said b", 'bot "Hello"', "bot say a with $x",
+    "bot say a or say b", "bot ...", "bot say a if $x", "bot say something else", 'bot say q\n  "Hi"\n  "Ho"',
+]
+V1_WHEN = ["user said %s", "user said %s", "user said %s", "Foo%s", "event Foo%s", "bot say %s", "user something"]
+V1_HEADERS = ["flow", "flow", "flow", "subflow", "subflow", "extension flow", "parallel flow", "sample flow", "repair flow", "non-interruptable flow", "parallel extension flow"]
+
+
+def _v1_lines(pad, text):
+    return [pad + l for l in text.split("\n")]
+
+
 def _v1_block(rng, depth, in_loop, ind, out, labels):
     n = rng.choice([1, 1, 2, 2, 3])
     pad = "  " * ind
-    for _ in range(n):
+    meta_at = rng.randrange(n + 1) if rng.random() < 0.22 else None  # a `meta` statement: first / middle / last of the block
+    if meta_at is not None and rng.random() < 0.15:
+        n = 0  # ... or the only statement of the block
+    for j in range(n + 1):
+        if meta_at == j or (meta_at is not None and n == 0):
+            out.extend(_v1_lines(pad, rng.choice(V1_META)))
+            if n == 0:
+                return
+        if j == n:
+            break
         r = rng.random()
         if depth > 0 and r < 0.22:
             out.append(pad + "if $x > 1")
@@ -293,50 +325,55 @@ def _v1_block(rng, depth, in_loop, ind, out, labels):
             out.append(pad + "while $x < 3")
             _v1_block(rng, depth - 1, True, ind + 1, out, labels)
         elif depth > 0 and r < 0.48:
-            out.append(pad + "when user said %s" % rng.choice("abc"))
+            out.append(pad + "when " + rng.choice(V1_WHEN).replace("%s", rng.choice("abc")))
             _v1_block(rng, depth - 1, in_loop, ind + 1, out, labels)
             for _ in range(rng.choice([0, 1, 1, 2])):
-                out.append(pad + "else when user said %s" % rng.choice("def"))
+                out.append(pad + "else when " + rng.choice(V1_WHEN).replace("%s", rng.choice("def")))
                 _v1_block(rng, depth - 1, in_loop, ind + 1, out, labels)
         else:
             q = rng.random()
-            if q < 0.2:
+            if q < 0.17:
                 out.append(pad + "user said %s" % rng.choice("abc"))
-            elif q < 0.4:
+            elif q < 0.34:
                 out.append(pad + "bot say %s" % rng.choice("abc"))
-            elif q < 0.52:
+            elif q < 0.46:
                 out.append(pad + (rng.choice(["break", "continue"]) if (in_loop or rng.random() < 0.3) else "$y = 2"))
-            elif q < 0.60:
+            elif q < 0.52:
                 out.append(pad + "$x = " + rng.choice(["1", "$x + 1", "..."]))
-            elif q < 0.68:
+            elif q < 0.60:
                 nm = "l%d" % len(labels)
                 labels.append(nm)
-                out.append(pad + "label " + nm)
-            elif q < 0.78:
+                out.append(pad + rng.choice(["label %s", "label %s", "checkpoint %s", "set %s label to $x", 'label %s "v"']) % nm)
+            elif q < 0.70:
                 # mostly defined labels, sometimes a forward / undefined reference (undefined -> the parser rejects the flow)
                 if labels and rng.random() < 0.92:
-                    out.append(pad + "goto " + rng.choice(labels))
+                    out.append(pad + rng.choice(["goto ", "goto ", "go to "]) + rng.choice(labels))
                 elif rng.random() < 0.12:
                     out.append(pad + "goto l%d" % rng.randrange(len(labels), len(labels) + 2))
                 else:
                     out.append(pad + "bot say z")
-            elif q < 0.84:
+            elif q < 0.75:
                 out.append(pad + "any")
                 for _ in range(rng.choice([2, 3])):
-                    out.append(pad + "  user said %s" % rng.choice("xyz"))
-            elif q < 0.90:
+                    out.append(pad + "  " + rng.choice(["user said %s", "user said %s", "event Ev%s"]) % rng.choice("xyz"))
+            elif q < 0.79:
                 out.append(pad + "execute act_%s" % rng.choice("ab"))
-            elif q < 0.95:
+            elif q < 0.83:
                 out.append(pad + rng.choice(["return", "stop"]))
-            else:
+            elif q < 0.86:
                 out.append(pad + "$x = ...")
+            else:
+                out.extend(_v1_lines(pad, rng.choice(V1_RARE)))
 
 
-def gen_v1_src(rng, depth):
+def gen_v1_src(rng, depth, rt=False):
     out = []
     for i in range(rng.choice([1, 2, 3])):
-        out.append("define flow f%d" % i)
-        out.append("  user said start")
+        hdr = rng.choice(V1_HEADERS)
+        out.append("define %s f%d" % (hdr, i))
+        # (in a configuration that holds conversations only a subflow may start with a non-event: it is never started by an event)
+        if rng.random() < 0.85 or (rt and hdr != "subflow"):  # (else the flow STARTS with whatever the block starts with: a loop, an `if`, a `when` …)
+            out.append("  user said start")
         _v1_block(rng, depth, False, 1, out, [])
         out.append("")
     return "\n".join(out) + "\n"
@@ -544,10 +581,10 @@ def _v1_defined_gotos(src):
 
 
 def gen_v1_rt(rng, depth):
-    src = "define user express greeting\n  \"hello\"\n\n" + _v1_defined_gotos(gen_v1_src(rng, depth))
-    if rng.random() < 0.5:
-        # subflows start with a `meta` element which `_load_flow_config` slices off (`elements[1:]`) AFTER the offsets were computed
-        src = re.sub(r"(?m)^define flow (f[12])$", lambda m: "define subflow " + m.group(1), src)
+    src = "define user express greeting\n  \"hello\"\n\n" + _v1_defined_gotos(gen_v1_src(rng, depth, True))
+    # (subflow / extension / parallel … headers and `meta` / `priority` statements of the flow body give the flow a leading
+    # `meta` element which `_load_flow_config` slices off (`elements[1:]`) AFTER the offsets were computed; `meta` statements
+    # inside blocks stay where they are)
     steps = [["new"]]
     for _ in range(rng.choice([1, 2, 3])):
         r = rng.random()
@@ -1329,6 +1366,9 @@ def run_v1rt(case):
                 rec = {"id": fid, "elems": elems, "oracle": scan_v1(elements), "snap": [step, vname], "cls": "" if step == 0 else "@later"}
                 if vname.startswith("rt") and dyn_items.get((vname, fid)) is not None:
                     rec["items"], rec["dyn"] = dyn_items[(vname, fid)], True  # compared with the Lean model `dynamicFlow`
+                elif vname.startswith("rt") and fid in views[0][1]:
+                    # the flow a live runtime holds vs the Lean model `loadFlow` of the loader applied to the configuration's elements
+                    rec["from"] = [elem_of(e) for e in views[0][1][fid]]
                 obs["flows"].append(rec)
 
     for i, st in enumerate(case["steps"]):
@@ -1352,7 +1392,7 @@ def run_v1rt(case):
 
                         try:  # the CoYML items of the same body through the split pipeline (for the model `dynamicFlow`)
                             body = "define flow " + st[1] + ":\n" + textwrap.indent(st[2], "  ")
-                            recs = compile_v1_source("dynamic.co", body)
+                            recs = compile_v1_source("dynamic.co", body, load=False)
                             dyn_items[("rt%d" % (len(insts) - 1), st[1])] = recs[0].get("items") if len(recs) == 1 else None
                         except Exception:  # noqa
                             pass
@@ -1482,7 +1522,38 @@ def build_v1_items(items):
     return out
 
 
-def compile_v1_items(flow_id, items, model_items):
+def load_v1_flows(flow_dicts):
+    """phase 5 — the elements the RUNTIME holds.  The compiled flows go through the real `RuntimeV1_0._init_flow_configs` /
+    `_load_flow_config` (one RuntimeV1_0 per worker process, its configuration's flow list replaced per case); returned are
+    the `FlowConfig.elements` lists of `runtime.flow_configs` — what `slide` / `compute_next_state` execute.  They get the
+    same from-scratch scan and the same proved checker as the parser's output, plus a differential against the Lean model
+    `loadFlow` of the loader."""
+    rt = _M.get("v1loader")
+    if rt is None:
+        from nemoguardrails.colang.v1_0.runtime.runtime import RuntimeV1_0
+
+        with _quiet():
+            rt = RuntimeV1_0(config=_M["RailsConfig"].from_content(colang_content="", yaml_content=RT_YAML1))
+        _M["v1loader"] = rt
+    recs = []
+    rt.config.flows = [copy.deepcopy(f) for f in flow_dicts]
+    try:
+        rt._init_flow_configs()
+    except Exception as e:  # noqa
+        return [{"id": f["id"], "loaded": True, "reject": f"load: {type(e).__name__}: {str(e)[:120]}"} for f in flow_dicts]
+    for f in flow_dicts:
+        fc = rt.flow_configs.get(f["id"])
+        if fc is None:
+            recs.append({"id": f["id"], "loaded": True, "elems": [], "oracle": ["adapter: the runtime holds no flow config for this flow of the configuration"], "cls": "@loaded"})
+            continue
+        recs.append({"id": f["id"], "loaded": True, "elems": [elem_of(e) for e in fc.elements], "oracle": scan_v1(fc.elements),
+                     "from": [elem_of(e) for e in f["elements"]], "cls": "@loaded"})
+    rt.config.flows = []
+    rt.flow_configs = {}
+    return recs
+
+
+def compile_v1_items(flow_id, items, model_items, keep=None):
     v1 = _M["v1"]
     rec = {"id": flow_id}
     if model_items is not None:
@@ -1494,21 +1565,26 @@ def compile_v1_items(flow_id, items, model_items):
         return rec
     rec["elems"] = [elem_of(e) for e in elements]
     rec["oracle"] = scan_v1(elements)
+    if keep is not None:
+        keep.append({"id": flow_id, "elements": elements})
     return rec
 
 
-def compile_v1_source(filename, content):
+def compile_v1_source(filename, content, load=True):
     """real pipeline of the 1.0 parser, split so that the CoYML items are visible for the compiler differential"""
     v1cp = _M["v1cp"]
     snippets, _imports = v1cp.parse_snippets_and_imports(filename, content)
     result = v1cp.parse_coflows_to_yml_flows(filename, content, snippets=snippets, include_source_mapping=True)
     out = []
+    keep = []
     for flow_id, items in result["flows"].items():
         try:
             model_items = items_of(items)
         except Exception:  # noqa  -- an item the converter does not understand: checker + oracle only
             model_items = None
-        out.append(compile_v1_items(flow_id, copy.deepcopy(items), model_items))
+        out.append(compile_v1_items(flow_id, copy.deepcopy(items), model_items, keep))
+    if load and keep:
+        out.extend(load_v1_flows(keep))
     return out
 
 
@@ -1538,11 +1614,13 @@ def run_impl(case):
                 obs["reject"] = f"flow-configs: {type(e).__name__}: {str(e)[:120]}"
         else:
             # the loader's result for 1.0 is what parse_colang_file returned; the split pipeline gives the items for the differential
-            flows = compile_v1_source(os.path.basename(path), content)
+            flows = compile_v1_source(os.path.basename(path), content, load=False)
             real = {f["id"]: [elem_of(e) for e in f["elements"]] for f in parsed["flows"]}
             for f in flows:
                 if "elems" in f and real.get(f["id"]) != f["elems"]:
                     f["oracle"] = f.get("oracle", []) + ["adapter: split pipeline differs from parse_colang_file for this flow"]
+            with _quiet():
+                flows.extend(load_v1_flows(parsed["flows"]))  # the flow dicts the loader got from parse_colang_file
             obs["flows"] = flows
         return obs
     if k == "v2src":
@@ -1594,7 +1672,11 @@ def run_impl(case):
             obs["reject"] = f"parse: {type(e).__name__}: {str(e)[:120]}"
         return obs
     if k == "v1items":
-        return {"version": "1.0", "flows": [compile_v1_items("gen", build_v1_items(case["items"]), case["items"])]}
+        keep = []
+        flows = [compile_v1_items("gen", build_v1_items(case["items"]), case["items"], keep)]
+        if keep:
+            flows.extend(load_v1_flows(keep))
+        return {"version": "1.0", "flows": flows}
     raise ValueError(k)
 
 
@@ -1638,6 +1720,8 @@ def model_requests(case, obs):
                 reqs.append({"m": "C12.v1closed", "elems": f["elems"]})
             if "items" in f:
                 reqs.append({"m": "C12.v1dynamic" if f.get("dyn") else "C12.v1compile", "items": f["items"]})
+            if "from" in f:
+                reqs.append({"m": "C12.v1load", "elems": f["from"]})
     return reqs
 
 
@@ -1761,6 +1845,13 @@ def compare(case, obs, mouts):
                     if a != b:
                         i = next((j for j in range(min(len(a), len(b))) if a[j] != b[j]), min(len(a), len(b)))
                         return f"flow {f['id']}: V1Compile model{' (dynamicFlow = start_flow :: compileFull)' if f.get('dyn') else ''} differs from the real elements at element {i}: model {a[i:i+1]} vs real {b[i:i+1]} (lengths {len(a)}/{len(b)})"
+            if "from" in f:
+                m = next(it)
+                a = [[e["k"], e["n"], e["e"], e["b"], e["c"], e["h"], e["a"]] for e in m["ok"]]
+                b = [[e["k"], e["n"], e["e"], e["b"], e["c"], e["h"], e["a"]] for e in f["elems"]]
+                if a != b:
+                    i = next((j for j in range(min(len(a), len(b))) if a[j] != b[j]), min(len(a), len(b)))
+                    return f"flow {f['id']}: the elements the runtime holds differ from the model `loadFlow` of `_load_flow_config` (leading meta element removed, everything else kept) at element {i}: model {a[i:i+1]} vs runtime {b[i:i+1]} (lengths {len(a)}/{len(b)})"
     return None
 
 
@@ -1769,6 +1860,8 @@ def compare(case, obs, mouts):
 def _where(case, obs, f):
     where = case.get("path") or case["kind"]
     hist = ""
+    if f.get("loaded"):
+        hist = " [the elements RuntimeV1_0 holds after _load_flow_config; history class @loaded]"
     if "snap" in f:
         hist = f" [after step {f['snap'][0]} of the history, instance/view {f['snap'][1]}{'/' + f['view'] if 'view' in f else ''}; history class {f.get('cls') or '@first-compilation'}]"
     return f"{where} flow `{f['id']}` (Colang {obs['version']}){hist}: "
